@@ -1,3 +1,4 @@
 """Imports every check module so that they register themselves."""
 from . import world_f  # noqa: F401
 from . import world_m  # noqa: F401
+from . import world_p  # noqa: F401
